@@ -13,8 +13,8 @@ CONSTANT MaxSteps
 VARIABLE hist
 gvars == <<vars, hist>>
 
-Act(a, s, c, k, v) == [a |-> a, s |-> s, c |-> c, k |-> k, v |-> v]
-Log(a, s, c, k) == hist' = Append(hist, Act(a, s, c, k, "-"))
+Act(a, s, c, k, v, sc, sp) == [a |-> a, s |-> s, c |-> c, k |-> k, v |-> v, sc |-> sc, sp |-> sp]
+Log(a, s, c, k) == hist' = Append(hist, Act(a, s, c, k, "-", FALSE, 0))
 \* consecutive next frames carry different top-level field sets (errors, then plain data, then extensions, ...)
 GenV(k) == IF k = "next" THEN <<"de", "d", "dx">>[(nframes % 3) + 1] ELSE "-"
 \* the upstream closes with a close frame (code 4400) in the idle = zero configurations, by dropping TCP otherwise
@@ -39,7 +39,16 @@ GenEnv ==
                      \/ SrvInitFail(c) /\ Log("InitFail", 0, c, "")
                      \/ SrvClose(c, GenCode) /\ Log("Close", 0, c, IF GenCode = 0 THEN "" ELSE "4400")
                      \/ SrvMute(c) /\ Log("Mute", 0, c, "")
-  \/ \E c \in Conn, s \in Subs, k \in Kinds : SrvSend(c, s, k, GenV(k)) /\ hist' = Append(hist, Act("Send", s, c, k, GenV(k)))
+                     \/ SrvHoldClose(c) /\ Log("HoldClose", 0, c, "")
+                     \/ SrvRelease(c) /\ Log("Release", 0, c, "")
+  \/ \E c \in Conn, s \in Subs, k \in Kinds :
+        SrvSend(c, s, k, GenV(k), FALSE, None) /\ hist' = Append(hist, Act("Send", s, c, k, GenV(k), FALSE, 0))
+  \* re-entrant handlers: the receiver cancels itself / subscribes an idle subscriber of its option tuple (re-use certain)
+  \/ \E c \in Conn, s \in Subs :
+        SrvSend(c, s, "next", GenV("next"), TRUE, None) /\ hist' = Append(hist, Act("Send", s, c, "next", GenV("next"), TRUE, 0))
+  \/ \E c \in Conn, s, t \in Subs :
+        /\ conns[Key(s)] = c /\ ~conn[c].closed
+        /\ SrvSend(c, s, "next", GenV("next"), FALSE, t) /\ hist' = Append(hist, Act("Send", s, c, "next", GenV("next"), FALSE, t))
   \/ IdleWait /\ Log("IdleWait", 0, 0, "")
 
 GenInit == Init /\ hist = <<>>
@@ -53,7 +62,7 @@ GenSpec == GenInit /\ [][GenNext]_gvars
 \* one schedule per quiescent state: configuration, environment steps, and what the spec predicts at that point
 Emit ==
   IF Quiescent /\ Len(hist) > 0
-  THEN PrintT(ToJson([key |-> cfg.key, idle |-> cfg.idle, bad |-> cfg.bad, ping |-> cfg.ping, steps |-> hist,
+  THEN PrintT(ToJson([key |-> cfg.key, idle |-> cfg.idle, bad |-> cfg.bad, ping |-> cfg.ping, hold |-> cfg.hold, reent |-> cfg.reent, steps |-> hist,
                       dialler |-> [c \in Conn |-> conn[c].dialler],
                       reach |-> [c \in Conn |-> conn[c].srv # "none"],   \* the dial reaches the server (not pre-cancelled)
                       exp |-> [s \in Subs |-> [pc |-> sub[s].pc, err |-> sub[s].err, blame |-> sub[s].blame, h |-> hlog[s]]]]))
